@@ -201,6 +201,11 @@ def loop_var_after_loop(f: FuncInfo):
                     for x in ast.walk(later.iter):
                         if isinstance(x, ast.Name) and isinstance(x.ctx, ast.Load) and x.id in live:
                             out.append((s, x.id, x))
+                    # names that the later loop never rebinds are still the stale value inside its body
+                    for b in later.body + later.orelse:
+                        for x in ast.walk(b):
+                            if isinstance(x, ast.Name) and isinstance(x.ctx, ast.Load) and x.id in live and x.id not in stores:
+                                out.append((s, x.id, x))
                     live -= stores
                     continue
                 for x in ast.walk(later):
@@ -405,19 +410,162 @@ def rank_of(expr, env: Dict[str, int]) -> Optional[int]:
 
 
 def scalar_conversion_of_array(f: FuncInfo):
-    """int(v)/float(v) with v definitely of rank >= 1 (TypeError under numpy >= 2)."""
-    env: Dict[str, int] = {}
-    counts: Dict[str, int] = {}
+    """int(v)/float(v) with v definitely of rank >= 1 (TypeError under numpy >= 2).
+    Ranks are tracked per name along the statement order of each block; a name assigned in a
+    nested block is forgotten afterwards (conservative)."""
+    hits = []
+
+    def scan_expr(e, env):
+        for n in ast.walk(e):
+            if isinstance(n, ast.Call) and isinstance(n.func, ast.Name) and n.func.id in ("int", "float") and len(n.args) == 1:
+                if rank_of(n.args[0], env) == 1:
+                    hits.append(n)
+
+    def assigned(stmts):
+        out = set()
+        for s in stmts:
+            for n in ast.walk(s):
+                if isinstance(n, ast.Name) and isinstance(n.ctx, ast.Store):
+                    out.add(n.id)
+        return out
+
+    def block(stmts, env):
+        for s in stmts:
+            if isinstance(s, (ast.FunctionDef, ast.AsyncFunctionDef, ast.ClassDef)):
+                continue
+            if isinstance(s, ast.Assign):
+                scan_expr(s.value, env)
+                r = rank_of(s.value, env)
+                for t in s.targets:
+                    for n in ast.walk(t):
+                        if isinstance(n, ast.Name):
+                            env.pop(n.id, None)
+                    if isinstance(t, ast.Name) and r is not None:
+                        env[t.id] = r
+                continue
+            subs = []
+            for fld in ("body", "orelse", "finalbody"):
+                b = getattr(s, fld, None)
+                if b:
+                    subs.append(b)
+            for h in getattr(s, "handlers", []) or []:
+                subs.append(h.body)
+            if subs:
+                for fld in ("test", "iter"):
+                    e = getattr(s, fld, None)
+                    if e is not None:
+                        scan_expr(e, env)
+                if isinstance(s, (ast.For, ast.While)):
+                    # names assigned in the loop body are unknown at its head
+                    for nm in assigned(s.body):
+                        env.pop(nm, None)
+                if isinstance(s, ast.For):
+                    for n in ast.walk(s.target):
+                        if isinstance(n, ast.Name):
+                            env.pop(n.id, None)
+                killed = set()
+                for b in subs:
+                    block(b, dict(env))
+                    killed |= assigned(b)
+                for nm in killed:
+                    env.pop(nm, None)
+                continue
+            for n in ast.iter_child_nodes(s):
+                if isinstance(n, ast.expr):
+                    scan_expr(n, env)
+            for n in ast.walk(s):
+                if isinstance(n, ast.Name) and isinstance(n.ctx, ast.Store):
+                    env.pop(n.id, None)
+
+    block(f.node.body, {})
+    return hits
+
+
+# ------------------------------------------------------------------------ F4e
+
+def narrowed_missing_attributes(ctx, f: FuncInfo):
+    """(node, var, attr, classes) for attribute reads `x.a` inside `if isinstance(x, C)` where no
+    class of C (nor any subclass) defines `a` in any way."""
+    inf = world(ctx).inf
+    prog = ctx.prog
+    out = []
     for n in own_nodes(f.node):
-        if isinstance(n, ast.Name) and isinstance(n.ctx, ast.Store):
-            counts[n.id] = counts.get(n.id, 0) + 1
-    for n in own_nodes(f.node):
-        if isinstance(n, ast.Assign) and len(n.targets) == 1 and isinstance(n.targets[0], ast.Name) \
-                and counts.get(n.targets[0].id) == 1:
-            r = rank_of(n.value, {})
-            if r is not None:
-                env[n.targets[0].id] = r
-    for n in own_nodes(f.node):
-        if isinstance(n, ast.Call) and isinstance(n.func, ast.Name) and n.func.id in ("int", "float") and len(n.args) == 1:
-            if rank_of(n.args[0], env) == 1:
-                yield n
+        if not isinstance(n, ast.If):
+            continue
+        t = n.test
+        if not (isinstance(t, ast.Call) and isinstance(t.func, ast.Name) and t.func.id == "isinstance" and len(t.args) == 2
+                and isinstance(t.args[0], ast.Name)):
+            continue
+        var = t.args[0].id
+        elts = t.args[1].elts if isinstance(t.args[1], ast.Tuple) else [t.args[1]]
+        classes = []
+        for e in elts:
+            r = prog.resolve_expr(f.module, e)
+            if r and r[0] == "class":
+                classes.append(r[1])
+            else:
+                classes = None
+                break
+        if not classes:
+            continue
+        # stop at the first rebinding of var in the body
+        rebound = False
+        for s in n.body:
+            for x in ast.walk(s):
+                if isinstance(x, ast.Name) and x.id == var and isinstance(x.ctx, ast.Store):
+                    rebound = True
+            if rebound:
+                break
+            for x in ast.walk(s):
+                if isinstance(x, ast.Attribute) and isinstance(x.value, ast.Name) and x.value.id == var \
+                        and isinstance(x.ctx, ast.Load):
+                    missing = []
+                    for c in classes:
+                        if any(isinstance(b, str) for cc in c.mro for b in cc.bases if b not in ("object",)):
+                            missing = []
+                            break  # external base: attributes unknown
+                        fam = [c] + c.all_subclasses()
+                        if any(_dynamic_attrs(k2) for k in fam for k2 in k.mro):
+                            missing = []
+                            break  # setattr(self, name, ..)/__getattr__: attributes not enumerable
+                        if not any(inf._has_attr(k, x.attr) for k in fam):
+                            missing.append(c)
+                    if missing and len(missing) == len(classes):
+                        out.append((x, var, x.attr, classes))
+    return out
+
+
+def _dynamic_attrs(ci) -> bool:
+    for ms in ci.all_methods.values():
+        for m in ms:
+            if m.name in ("__getattr__", "__getattribute__"):
+                return True
+            for n in own_nodes(m.node):
+                if isinstance(n, ast.Call) and isinstance(n.func, ast.Name) and n.func.id == "setattr" and len(n.args) >= 2:
+                    # re-assigning an attribute that is read from the same object first is not creation
+                    obj, name = norm(n.args[0]), norm(n.args[1])
+                    reads = any(isinstance(g, ast.Call) and isinstance(g.func, ast.Name) and g.func.id == "getattr"
+                                and len(g.args) >= 2 and norm(g.args[0]) == obj and norm(g.args[1]) == name
+                                for g in own_nodes(m.node))
+                    if not reads:
+                        return True
+                if isinstance(n, ast.Attribute) and n.attr == "__dict__" and isinstance(n.ctx, ast.Load) \
+                        and isinstance(getattr(n, "_parent", None), ast.Attribute) and n._parent.attr == "update":
+                    return True
+    return False
+
+
+def rule_F4e(ctx, funcs: Iterable[FuncInfo], label: str):
+    ctx.rule("F4e", "inside a branch guarded by isinstance(x, C) with C a repo class, every attribute read x.a is defined "
+                    "somewhere in C's hierarchy (instance attribute assigned in a method, class attribute, property or method)")
+    n = 0
+    for f in funcs:
+        ctx.touch(f)
+        hits = narrowed_missing_attributes(ctx, f)
+        n += 1
+        for node, var, attr, classes in hits:
+            cn = "/".join(c.name for c in classes)
+            ctx.check(False, "F4e", f"{f.qname}:{var}.{attr}", func=f, node=node, construct=f"no-such-attribute:{cn}.{attr}",
+                      msg=f"`{var}.{attr}` is read under isinstance({var}, {cn}) but no class in that hierarchy defines "
+                          f"`{attr}` (AttributeError whenever this branch runs)")
+    ctx.ok("F4e", f"{label}: {n} functions scanned")
